@@ -10,3 +10,4 @@ import AikenVerif.Props.C12
 import AikenVerif.Props.C18
 import AikenVerif.Props.C19
 import AikenVerif.Props.C13
+import AikenVerif.Props.C10
